@@ -243,8 +243,119 @@ static void finish_case(Ctx& c, CaseRun& run) {
   }
 }
 
+// Very deep trees (deeper than any deserializer lets through: they can only come from API calls): every depth-dependent
+// observable against the model - nesting() at every level, size, traversal, both serializers and their measures,
+// deep copies into another document and into a nested member, equality, removal of the innermost levels.
+static void deep_case(Ctx& c, Rng& r) {
+  static const int edges[] = {126, 127, 128, 129, 254, 255, 256, 257, 258, 300, 511, 512, 513, 600};
+  int depth = r.chance(2, 3) ? r.pick(edges) : (int)r.range(2, 700);
+  size_t per_level = 2;   // a container and (objects) its key live in up to two slots per level
+  if ((uint64_t)depth * per_level + 8 >= kMaxSlots) depth = (int)(kMaxSlots / per_level) - 4;
+  if (depth < 2) depth = 2;
+  int shape = (int)r.below(3);
+  MVal model = gen_chain(r, depth, shape);
+  std::string wit = "chain of " + std::to_string(depth) + " nested " + (shape == 0 ? "arrays" : shape == 1 ? "objects" : "alternating arrays/objects") + " built through the API";
+  if (c.want_sample()) c.sample(wit);
+  c.nontrivial(mix3((uint64_t)depth, (uint64_t)shape, 77));
+  c.outcome("deep-chain");
+  auto viol = [&](const std::string& cl, const std::string& d) { c.violation(cl, d, wit); };
+  SpyAllocator sa, sb;
+  {
+    AJ::JsonDocument doc(&sa);
+    bool iterative = r.coin();
+    if (iterative) {
+      // leaf = leaf.add<JsonArray>() / leaf["a"].to<JsonObject>() repeated depth times
+      AJ::JsonVariant cur = doc.to<AJ::JsonVariant>();
+      const MVal* m = &model;
+      while (m->is_container()) {
+        if (m->k == MVal::Arr) { AJ::JsonArray a = cur.to<AJ::JsonArray>(); cur = a.add<AJ::JsonVariant>(); m = &m->a[0]; }
+        else { AJ::JsonObject o = cur.to<AJ::JsonObject>(); cur = o[m->o[0].first].to<AJ::JsonVariant>(); m = &m->o[0].second; }
+      }
+      cur.set((long long)m->as_ld());
+    } else build(doc.to<AJ::JsonVariant>(), model);
+    if (doc.overflowed()) { viol("spurious-overflow", "overflowed() after building a chain that fits the configured limits"); return; }
+    Inspector::Snap s0 = Inspector::inspect(doc);
+    if (!s0.ok) { viol("structure", s0.error); return; }
+    // nesting() at every level, through the document, variants, array / object handles
+    if (doc.nesting() != (size_t)depth) viol("observable", "doc.nesting() = " + std::to_string(doc.nesting()) + ", model " + std::to_string(depth));
+    {
+      AJ::JsonVariantConst v = doc.as<AJ::JsonVariantConst>(); const MVal* m = &model; int level = 0;
+      while (m->is_container()) {
+        size_t want = m->nesting();
+        size_t got = v.nesting();
+        size_t got2 = m->k == MVal::Arr ? v.as<AJ::JsonArrayConst>().nesting() : v.as<AJ::JsonObjectConst>().nesting();
+        if (got != want || got2 != want) { viol("observable", "nesting() at level " + std::to_string(level) + " = " + std::to_string(got) + " (handle: " + std::to_string(got2) + "), model " + std::to_string(want)); break; }
+        if (v.size() != 1) { viol("observable", "size() at level " + std::to_string(level) + " = " + std::to_string(v.size())); break; }
+        if (m->k == MVal::Arr) { v = v[0]; m = &m->a[0]; } else { v = v[m->o[0].first.c_str()]; m = &m->o[0].second; }
+        level++;
+        c.count("deep_levels_observed");
+      }
+      if (!m->is_container() && v.as<long long>() != (long long)m->as_ld()) viol("observable", "leaf value differs");
+    }
+    ExtractState es; ExtractOpt eo; eo.max_nodes = 100000;
+    MVal y = extract(doc, &es, eo);
+    CmpOpt co; std::string why;
+    if (es.overflow || !mv_equal(model, y, co, &why)) viol("document-differs-from-model", why);
+    std::string js, mp, pj;
+    size_t n1 = AJ::serializeJson(doc, js), n2 = AJ::serializeMsgPack(doc, mp), n3 = AJ::serializeJsonPretty(doc, pj);
+    if (n1 != js.size() || AJ::measureJson(doc) != n1) viol("observable", "measureJson / count / length disagree on a deep chain");
+    if (n2 != mp.size() || AJ::measureMsgPack(doc) != n2) viol("observable", "measureMsgPack / count / length disagree on a deep chain");
+    if (n3 != pj.size() || AJ::measureJsonPretty(doc) != n3) viol("observable", "measureJsonPretty / count / length disagree on a deep chain");
+    { RenderOpt ro; ro.use_float_spelling = false; std::string want = render_json(model, ro); if (js != want) viol("observable", "serializeJson of the deep chain differs from the reference rendering (first difference at byte " + std::to_string(std::mismatch(js.begin(), js.end(), want.begin(), want.end()).first - js.begin()) + ")"); }
+    {
+      // the pretty text must denote the same value: strip insignificant whitespace (no strings with blanks in a chain)
+      std::string squeezed; for (char ch : pj) if (ch != ' ' && ch != '\n' && ch != '\r' && ch != '\t') squeezed += ch;
+      if (squeezed != js) viol("observable", "serializeJsonPretty of the deep chain is not the compact text plus whitespace");
+    }
+    Inspector::Snap s1 = Inspector::inspect(doc);
+    if (s1.hash != s0.hash) viol("read-only-op-changed-state", "observation changed the concrete state");
+    // deep copies: whole document, and into a member of another document
+    {
+      AJ::JsonDocument d2(&sb);
+      d2.set(doc);
+      if (d2.overflowed()) viol("spurious-overflow", "copy of the chain overflowed");
+      else {
+        if (d2.nesting() != (size_t)depth) viol("observable", "copy: nesting() = " + std::to_string(d2.nesting()) + ", model " + std::to_string(depth));
+        if (!(d2 == doc) || d2 != doc) viol("observable", "copy of a deep chain does not compare equal to its source");
+        MVal y2 = extract(d2);
+        if (!mv_equal(model, y2, co, &why)) viol("copy-differs", why);
+      }
+      AJ::JsonDocument d3(&sb);
+      d3["x"][1] = doc;
+      if (!d3.overflowed()) {
+        if (d3.nesting() != (size_t)depth + 2) viol("observable", "nested copy: nesting() = " + std::to_string(d3.nesting()) + ", model " + std::to_string(depth + 2));
+        std::string j3; AJ::serializeJson(d3["x"][1], j3);
+        if (j3 != js) viol("copy-differs", "chain copied into a nested member serializes differently");
+      }
+      AJ::JsonDocument d4(doc);   // copy constructor
+      if (d4.nesting() != (size_t)depth) viol("observable", "copy-constructed document: nesting() = " + std::to_string(d4.nesting()));
+      // the source is independent of its copies
+      d2.clear(); d3.clear();
+      std::string again; AJ::serializeJson(doc, again);
+      if (again != js) viol("copy-not-independent", "source changed after its copies were cleared");
+    }
+    // cut the chain at a random level: everything below disappears, nesting follows
+    {
+      int cut = (int)r.range(0, depth - 1);
+      AJ::JsonVariant v = doc.as<AJ::JsonVariant>(); MVal* m = &model;
+      for (int i = 0; i < cut; i++) { if (m->k == MVal::Arr) { v = v[0]; m = &m->a[0]; } else { v = v[m->o[0].first.c_str()]; m = &m->o[0].second; } }
+      if (m->k == MVal::Arr) { v.as<AJ::JsonArray>().remove(0); m->a.clear(); } else { v.as<AJ::JsonObject>().remove(m->o[0].first.c_str()); m->o.clear(); }
+      if (doc.nesting() != model.nesting()) viol("observable", "after cutting at level " + std::to_string(cut) + ": nesting() = " + std::to_string(doc.nesting()) + ", model " + std::to_string(model.nesting()));
+      MVal y3 = extract(doc);
+      if (!mv_equal(model, y3, co, &why)) viol("document-differs-from-model", "after cutting at level " + std::to_string(cut) + ": " + why);
+      Inspector::Snap s2 = Inspector::inspect(doc);
+      if (!s2.ok) viol("structure", "after cut: " + s2.error);
+      else if (s2.leaked) viol("structure", "after cut: " + std::to_string(s2.leaked) + " slots neither reachable nor free");
+    }
+  }
+  if (!sa.live.empty() || !sb.live.empty()) viol("leak-after-destruction", "blocks live after the documents were destroyed");
+  if (!sa.errors.empty()) viol("allocator-protocol", sa.errors[0]);
+  if (!sb.errors.empty()) viol("allocator-protocol", sb.errors[0]);
+}
+
 void vf_run_case(Ctx& c, uint64_t index) {
   Rng r(c.seed, 4, index);
+  if (c.mode == "deep") { deep_case(c, r); return; }
   if (c.mode.rfind("small", 0) == 0) {
     // decode index into a digit string of length 1..L
     uint64_t i = index, p = SMALL_A; int len = 1;
